@@ -10,7 +10,7 @@
    [C28_components_linearizable] instantiates the premise of part 1 with it. *)
 From Coq Require Import String List NArith Bool.
 From LV Require Import model.LockDiscipline model.Lin proofs.LinSim proofs.LinHW proofs.LinHB proofs.Lin proofs.LinTable
-  model.Wlru model.Semaphore model.LinObjects proofs.LinInstances gen.LockTable.
+  model.Wlru model.Semaphore model.LinObjects model.CrashBase model.LinMulti proofs.LinMulti proofs.LinInstances proofs.LinBuffer gen.LockTable.
 Import ListNotations.
 Local Open Scope string_scope.
 
@@ -177,6 +177,75 @@ Theorem C28_flushable_race_free :
     ~ race fstate fop fres (option fres) (os_fin fop fres) nowait (fkind checked_table) c.
 Proof. exact (flushable_race_free checked_table C28_flushable_table_check). Qed.
 
+(* EventsBuffer, the MUTATORS PushEvent / Clear, over model/Buffer.v (C14, repaired version); the callbacks run
+   inside the critical section and are part of the operation's effect in the model (oracles [fc], [fp] for the
+   application's Check / Process).  Total / IsBuffered are not operations of this object (recorded finding). *)
+Theorem C28_buffer_table_check : tk_check bkeys bk_readonly checked_table = true.
+Proof. vm_compute. reflexivity. Qed.
+
+Theorem C28_buffer_mutators_linearizable :
+  forall (fc fp : list Buffer.out -> Buffer.entry -> bool) (limN limS : N) (s0 : Buffer.st) tr c,
+    exec Buffer.st bop (option Buffer.out) (option (option Buffer.out)) (os_linit bop (option Buffer.out))
+         (os_mstep _ _ _ (bstep fc fp limN limS)) (os_fin bop (option Buffer.out)) nowait nowstep
+         (bkind checked_table) s0 tr c ->
+    linearizable Buffer.st bop (option Buffer.out) (option (option Buffer.out)) (os_linit bop (option Buffer.out))
+         (os_mstep _ _ _ (bstep fc fp limN limS)) (os_fin bop (option Buffer.out)) nowait nowstep s0
+         (hist bop (option Buffer.out) tr).
+Proof. exact (fun fc fp limN limS => buffer_mutators_linearizable fc fp limN limS checked_table C28_buffer_table_check). Qed.
+
+(* ---- several mutexes: lock order, deadlock freedom, the pool ---- *)
+(* generic: a machine in which a thread asks for a lock only above the ranks of the locks it holds never
+   reaches a configuration with a cycle of waiting threads *)
+Theorem C28_ordered_locks_no_deadlock :
+  forall (lock : Type) (rank : lock -> nat) (c : lconfig lock),
+    lreach lock rank c -> ~ deadlocked lock c.
+Proof. exact ordered_locks_no_deadlock. Qed.
+
+(* the (held, acquired) pairs of mutex classes that lockscan saw in the code increase along this ranking;
+   two locks of one class (two stores) are never held together (there is no pair (x, x)) *)
+Definition lock_rank (m : string) : N :=
+  if String.eqb m "syncedpool.Mutex" then 1 else if String.eqb m "syncedpool.flushing" then 2
+  else if String.eqb m "syncedpool.queuedDropsMu" then 3 else if String.eqb m "flushable.lock" then 4
+  else if String.eqb m "eventsbuffer.mu" then 5 else if String.eqb m "wlru.lock" then 6
+  else if String.eqb m "datasemaphore.mu" then 7 else 0.
+Theorem C28_lock_order_ranked :
+  forallb (fun e => N.ltb 0 (lock_rank (fst e)) && N.ltb (lock_rank (fst e)) (lock_rank (snd e))) lock_order = true.
+Proof. vm_compute. reflexivity. Qed.
+
+(* SyncedPool's own operations (Flush, NotFlushedSizeEst, Names, OpenDB, GetUnderlying, Initialize) hold the pool
+   mutex from beginning to end: one-mutex object over model/SyncedPool.v (LinObjects.pl_step).  A Flush that
+   released the pool mutex between the dirty marks and the data would have two sections and break the check. *)
+Theorem C28_pool_table_check : tk_check lkeys lk_readonly checked_table = true.
+Proof. vm_compute. reflexivity. Qed.
+
+Theorem C28_pool_operations_linearizable :
+  forall (fk : CrashBase.bytes) (s0 : pstate) tr c,
+    exec pstate lop pres (option pres) (os_linit lop pres) (os_mstep _ _ _ (lstep_pool fk)) (os_fin lop pres)
+         nowait nowstep (poolkind checked_table) s0 tr c ->
+    linearizable pstate lop pres (option pres) (os_linit lop pres) (os_mstep _ _ _ (lstep_pool fk)) (os_fin lop pres)
+         nowait nowstep s0 (hist lop pres tr).
+Proof. exact (fun fk => pool_ops_linearizable fk checked_table C28_pool_table_check). Qed.
+
+(* ... but together with writes through the store handles (which take only the store's lock) the pool is NOT
+   linearizable: exactly these pool operations visit the stores in SEVERAL separate critical sections of the
+   stores' locks (not two-phase), so a handle write can fall between two of them.  Recorded finding
+   C28-pool-multi-store-not-atomic; demonstrated on the real code by the POOLMID case. *)
+Theorem C28_pool_multi_store_ops_refuted :
+  map row_key (filter (fun r => r_exported r && negb (is_self r) && negb (r_quiescent r) && N.ltb 1 (r_sections r)) lock_table)
+  = [("SyncedPool", "Flush"); ("SyncedPool", "Initialize"); ("SyncedPool", "NotFlushedSizeEst")].
+Proof. vm_compute. reflexivity. Qed.
+
+(* re-entrancy: no callback written as a function literal at a construction site of one of the objects calls back
+   into the object it is given to (regenerated by lockscan over the whole repository; callbacks supplied from
+   elsewhere — cb_external — are covered only by the hypothesis of the instances) *)
+Theorem C28_callbacks_not_reentrant : forallb cb_ok callback_table = true.
+Proof. vm_compute. reflexivity. Qed.
+
+Example C28_callback_sites_found :
+  existsb (fun r => String.eqb (cb_object r) "EventsBuffer" && N.ltb 0 (cb_literals r)) callback_table = true /\
+  existsb (fun r => String.eqb (cb_object r) "Cache" && N.ltb 0 (cb_literals r)) callback_table = true.
+Proof. vm_compute. split; reflexivity. Qed.
+
 (* DataSemaphore, including the blocking Acquire (Cond.Wait loop), over model/Semaphore.v (C30) *)
 Theorem C28_semaphore_table_check : tk_check skeys sk_readonly checked_table = true.
 Proof. vm_compute. reflexivity. Qed.
@@ -290,6 +359,7 @@ Definition expected_methods : list (string * string) :=
     ("Flushable","Stat"); ("Flushable","Compact"); ("Flushable","GetSnapshot"); ("Flushable","NewBatch");
     ("flushableReader","Has"); ("flushableReader","Get"); ("flushableReader","NewIterator");
     ("LazyFlushable","InitUnderlyingDb"); ("LazyFlushable","Flush"); ("Snapshot","Release");
+    ("flushableIterator","Next"); ("flushableIterator","Key"); ("flushableIterator","Value"); ("flushableIterator","Release");
     ("SyncedPool","Initialize"); ("SyncedPool","OpenDB"); ("SyncedPool","GetUnderlying"); ("SyncedPool","Flush");
     ("SyncedPool","NotFlushedSizeEst"); ("SyncedPool","Names"); ("SyncedPool","Close");
     ("Cache","Purge"); ("Cache","Add"); ("Cache","Get"); ("Cache","Contains"); ("Cache","Peek");
@@ -312,7 +382,9 @@ Example C28_table_spot_checks :
     = Some (LShared, 0%N, 0%N) /\
   option_map (fun r => (r_mode r, N.ltb 0 (r_writes r))) (find_row lock_table "Cache" "Get") = Some (LExcl, true) /\
   option_map (fun r => (r_mode r, r_condwait r)) (find_row lock_table "DataSemaphore" "Acquire") = Some (LExcl, true) /\
-  option_map (fun r => (r_mode r, r_unlocked_reads r)) (find_row lock_table "EventsBuffer" "Total") = Some (LNone, 1%N).
+  option_map (fun r => (r_mode r, r_unlocked_reads r)) (find_row lock_table "EventsBuffer" "Total") = Some (LNone, 1%N) /\
+  option_map (fun r => (r_mode r, N.ltb 0 (r_reads r), r_writes r)) (find_row lock_table "flushableIterator" "Next")
+    = Some (LShared, true, 0%N).
 Proof. vm_compute. repeat split; reflexivity. Qed.
 
 Print Assumptions C28_locked_refines_atomic.
@@ -331,6 +403,14 @@ Print Assumptions C28_wlru_sequential_spec_is_the_model.
 Print Assumptions C28_flushable_table_check.
 Print Assumptions C28_flushable_linearizable.
 Print Assumptions C28_flushable_race_free.
+Print Assumptions C28_buffer_table_check.
+Print Assumptions C28_buffer_mutators_linearizable.
+Print Assumptions C28_ordered_locks_no_deadlock.
+Print Assumptions C28_lock_order_ranked.
+Print Assumptions C28_pool_table_check.
+Print Assumptions C28_pool_operations_linearizable.
+Print Assumptions C28_pool_multi_store_ops_refuted.
+Print Assumptions C28_callbacks_not_reentrant.
 Print Assumptions C28_semaphore_table_check.
 Print Assumptions C28_semaphore_linearizable.
 Print Assumptions C28_semaphore_race_free.
